@@ -1025,7 +1025,9 @@ DFANIgetann(const char *filename, uint16 tag, uint16 ref, uint8 *ann, int32 maxl
         Hendaccess(aid);
         HCLOSE_GOTO_ERROR(file_id, DFE_READERROR, FAIL);
     }
-    if ((int32)FAIL == Hread(aid, annlen, ann)) { /* read the annotation */
+    /* read the annotation (a zero length would mean "the whole rest of the
+       element" to Hread and overrun the caller's buffer) */
+    if (annlen > 0 && (int32)FAIL == Hread(aid, annlen, ann)) {
         Hendaccess(aid);
         HCLOSE_GOTO_ERROR(file_id, DFE_READERROR, FAIL);
     }
